@@ -26,5 +26,6 @@ def check(run):
     for fam in BUILD:
         run.gen("Gen_Build", consts={"Fam": fam}, tag="Gen_Build_" + fam)
     run.gen("Gen_C06")      # the signing constructors (RouterInfo, LeaseSet, LeaseSet2, EncryptedLeaseSet, OfflineSignature) incl. single-defect variants
+    run.gen("Gen_Objects")  # RouterInfo.AddAddress histories: the value handed back is judged by the same lifecycle predicate
     run.replay_and_judge()
     return vlib.finish(run, "model_checking", RULE, ASSUME)
